@@ -254,6 +254,8 @@ def oracle_c04(rr: Any, spec: Dict[str, Any]) -> "tuple[List[Violation], int]":
             return False
         if s.get("deps_open", 0) > 0:
             return False  # a dependency opened for this execution has not been closed yet
+        if s.get("hooks_open", 0) > 0:
+            return False  # a middleware hook started for this message is still running
         # an ackable, well-formed message is only finished once its acknowledgement has completed
         # (unless its processing aborted with an exception, then it is never acknowledged)
         if s.get("needs_ack") and not s.get("acked") and not s.get("raised"):
@@ -289,6 +291,10 @@ def oracle_c04(rr: Any, spec: Dict[str, Any]) -> "tuple[List[Violation], int]":
             s["raised"] = 1
         elif k == "dep_open":
             s["deps_open"] = s.get("deps_open", 0) + 1
+        elif k.startswith("mw:") and e.get("slow"):
+            s["hooks_open"] = s.get("hooks_open", 0) + 1
+        elif k.startswith("mw_end:"):
+            s["hooks_open"] = s.get("hooks_open", 0) - 1
         elif (k == "dep_closed" and e.get("dep") in slow_td) or (k == "dep_close" and e.get("dep") not in slow_td):
             s["deps_open"] = s.get("deps_open", 0) - 1
         if d in unfinished and done(s):
@@ -370,8 +376,11 @@ def oracle_c05(rr: Any, spec: Dict[str, Any]) -> List[Violation]:
                 if first(evs, "ack") is not None and first(evs, "ack_done") is None:
                     v.append(Violation("ack-incomplete", f"delivery {d} ack started but not completed at return"))
                 inf = rr.sc.deliveries[d]
+                # a callback that raised is excused only by a fault the scenario injected (a raising hook; an ack that
+                # raises has an "ack" event): whatever the task function itself raises is a stored error, not an abort
+                injected = any(e["k"].startswith("mw_raise:") for e in evs)
                 if (inf.get("ackable") and inf.get("kind") == "valid" and first(evs, "ack") is None
-                        and first(evs, "cb_raise") is None and first(evs, "task_start") is not None):
+                        and (first(evs, "cb_raise") is None or not injected) and first(evs, "task_start") is not None):
                     v.append(Violation("not-acknowledged-at-return", f"delivery {d} was executed and its processing ended normally, but it was never acknowledged (run to completion includes the acknowledgement)"))
     # (c)/(e) promptness and termination (bounded progress, virtual time)
     F = max([exit_t[d] for d in accepted if d in exit_t] + [S_t]) if accepted else S_t
@@ -430,6 +439,9 @@ def oracle_c06(rr: Any, spec: Dict[str, Any]) -> "tuple[List[Violation], int]":
     v: List[Violation] = []
     checked = 0
     tok_of = {i["d"]: i["tok"] for i in rr.sc.deliveries}
+    # a message may carry the task id of another one (redelivery / re-used id): the id it was sent with
+    tid_of = {f"m{i}": m["task_id"] for i, m in enumerate(spec.get("msgs", [])) if m.get("task_id")}
+    tid_of = {d: tid_of.get(t, t) for d, t in tok_of.items()}
 
     def chk(echo: Any, d: Any, where: str, uncached: bool = False) -> None:
         nonlocal checked
@@ -437,7 +449,7 @@ def oracle_c06(rr: Any, spec: Dict[str, Any]) -> "tuple[List[Violation], int]":
             return
         checked += 1
         want = tok_of.get(d)
-        if list(echo) != [want, want, want]:
+        if list(echo) != [tid_of.get(d, want), want, want]:
             kind = "context-crosstalk-uncached-dependency" if uncached else "context-crosstalk"
             v.append(Violation(kind, f"{where} of delivery {d} ({want}) observed Context of {echo}"))
 
@@ -456,13 +468,13 @@ def oracle_c06(rr: Any, spec: Dict[str, Any]) -> "tuple[List[Violation], int]":
             if not isinstance(e.get("meta"), dict) or e["meta"].get("tok") != want:
                 v.append(Violation("progress-crosstalk", f"progress of delivery {e['m']} ({want}) carries meta {e.get('meta')} of another message"))
         elif e["k"] == "set_progress":
-            want = tok_of.get(e["m"])
+            want = tid_of.get(e["m"])
             if e["task_id"] != want:
                 v.append(Violation("progress-crosstalk", f"progress reported by delivery {e['m']} ({want}) stored under {e['task_id']}"))
         elif e["k"] == "set_enter":
             want = tok_of.get(e["m"])
             checked += 1
-            if e["task_id"] != want:
+            if e["task_id"] != tid_of.get(e["m"]):
                 v.append(Violation("result-wrong-id", f"result of delivery {e['m']} ({want}) stored under {e['task_id']}"))
             rv = e.get("rv")
             if isinstance(rv, dict) and rv.get("tok") not in (None, want):
